@@ -152,6 +152,10 @@ pub enum FeOp {
 	LateSubscribe,
 	/// this many notifications sent one after the other by one caller
 	NotifBurst(usize),
+	/// a call whose future is polled once (the request goes out), then left alone until the scheduler says so, then -
+	/// after waiting in real time until the request timeout has certainly expired - awaited: the application's task was
+	/// busy while the answer came in
+	CallPolledLate,
 }
 
 #[derive(Clone, Debug, PartialEq)]
@@ -196,6 +200,9 @@ pub struct OpLog {
 	pub env_fired: usize,
 	/// (event index, trace position, delivered text)
 	pub deliveries: Vec<(usize, usize, String)>,
+	/// for CallPolledLate ops: (op index, trace position when the real-time wait began, real milliseconds since the call
+	/// was created at that moment)
+	pub late_polls: Vec<(usize, usize, u128)>,
 }
 
 pub struct CliState {
@@ -294,12 +301,18 @@ pub struct CliScenarioCfg {
 	/// installed: `Some(true)` = every setting first and `set_rpc_middleware` as the last call, `Some(false)` = the
 	/// middleware first
 	pub ws_builder: Option<bool>,
+	/// JSON whitespace put before and after every text message the environment delivers (a server or proxy that frames
+	/// its messages with CR LF, pretty-prints, ...)
+	pub frame_ws: &'static str,
+	/// request timeout in REAL milliseconds (the client's timer is futures_timer's, which runs on the wall clock);
+	/// None = one hour
+	pub request_timeout_ms: Option<u64>,
 }
 
 /// The same client configuration expressed through `jsonrpsee_ws_client::WsClientBuilder`, with the default logger
 /// middleware installed explicitly (so the client type stays the default one).
 pub fn ws_builder_plain(buffer_cap: usize, id_kind: IdKind, mw_last: bool, shared: Arc<Shared>) -> Client {
-	let cfg = CliScenarioCfg { id_kind, ops: vec![], env: vec![], fail_send_at: None, tx_points: false, buffer_cap, late_after: 0, rx_split: false, ping_ms: None, send_ping_ms: None, fail_ping: false, warmup: 0, fail_close: false, ws_builder: Some(mw_last) };
+	let cfg = CliScenarioCfg { id_kind, ops: vec![], env: vec![], fail_send_at: None, tx_points: false, buffer_cap, late_after: 0, rx_split: false, ping_ms: None, send_ping_ms: None, fail_ping: false, warmup: 0, fail_close: false, ws_builder: Some(mw_last), frame_ws: "", request_timeout_ms: None };
 	ws_builder_client(&cfg, mw_last, shared)
 }
 
@@ -341,7 +354,7 @@ pub fn setup(cfg: &CliScenarioCfg) -> CliState {
 		tx_points: cfg.tx_points,
 	});
 	let mut builder = ClientBuilder::default()
-		.request_timeout(Duration::from_secs(3600))
+		.request_timeout(cfg.request_timeout_ms.map_or(Duration::from_secs(3600), Duration::from_millis))
 		.max_buffer_capacity_per_subscription(cfg.buffer_cap)
 		.id_format(cfg.id_kind);
 	if let Some(ms) = cfg.send_ping_ms {
@@ -375,6 +388,7 @@ pub fn setup(cfg: &CliScenarioCfg) -> CliState {
 		on_disconnect: None,
 		env_fired: 0,
 		deliveries: vec![],
+		late_polls: vec![],
 	}));
 	let env_notify = Arc::new(Notify::new());
 	// warm-up: advance the id counter
@@ -403,6 +417,7 @@ pub fn setup(cfg: &CliScenarioCfg) -> CliState {
 		let log = log.clone();
 		let env_notify = env_notify.clone();
 		let late_after = cfg.late_after;
+		let late_timeout_ms = cfg.request_timeout_ms.unwrap_or(0);
 		let warm = warm.clone();
 		tokio::spawn(async move {
 			loop {
@@ -434,6 +449,26 @@ pub fn setup(cfg: &CliScenarioCfg) -> CliState {
 					}
 				}
 				FeOp::Call | FeOp::LateCall => client.request::<Value, _>("m", rpc_params![i as u64]).await.map(|v| v.to_string()).map_err(|e| err_str(&e)),
+				FeOp::CallPolledLate => {
+					let t0 = std::time::Instant::now();
+					let fut = client.request::<Value, _>("m", rpc_params![i as u64]);
+					tokio::pin!(fut);
+					match futures_util::poll!(fut.as_mut()) {
+						std::task::Poll::Ready(r) => r.map(|v| v.to_string()).map_err(|e| err_str(&e)),
+						std::task::Poll::Pending => {
+							sched::point(format!("fe:late-poll:{i}")).await;
+							let waited = t0.elapsed().as_millis();
+							log.lock().unwrap().late_polls.push((i, sched::pos(), waited));
+							sched::log(format!("fe:{i}:late-poll:waiting-past-the-deadline"));
+							// real time: the timeout timer is not tokio's
+							let deadline = Duration::from_millis(late_timeout_ms + late_timeout_ms / 4);
+							if let Some(rest) = deadline.checked_sub(t0.elapsed()) {
+								std::thread::sleep(rest);
+							}
+							fut.await.map(|v| v.to_string()).map_err(|e| err_str(&e))
+						}
+					}
+				}
 				FeOp::Notif => client.notification("note", rpc_params![i as u64]).await.map(|_| "sent".to_string()).map_err(|e| err_str(&e)),
 				FeOp::NotifBurst(n) => {
 					let mut r = Ok("sent".to_string());
@@ -522,6 +557,7 @@ pub fn setup(cfg: &CliScenarioCfg) -> CliState {
 		let shared = shared.clone();
 		let log = log.clone();
 		let env_notify = env_notify.clone();
+		let frame_ws = cfg.frame_ws;
 		tokio::spawn(async move {
 			let item: Result<ReceivedMessage, MockErr> = match &ev {
 				EnvEvent::Answer { msg, kind } => {
@@ -574,6 +610,10 @@ pub fn setup(cfg: &CliScenarioCfg) -> CliState {
 				let p = sched::pos();
 				l.deliveries.push((k, p, txt));
 			}
+			let item = match item {
+				Ok(ReceivedMessage::Text(t)) if !frame_ws.is_empty() => Ok(ReceivedMessage::Text(format!("{frame_ws}{t}{frame_ws}"))),
+				other => other,
+			};
 			shared.push_rx(item);
 			env_notify.notify_waiters();
 		});
@@ -601,7 +641,7 @@ pub fn wire_index_of(sent: &[String], op: &FeOp, i: usize) -> Option<usize> {
 			FeOp::Batch(_) | FeOp::LateBatch(_) | FeOp::BatchStr(_) => v.as_array().map_or(false, |a| a.first().and_then(|e| e.get("method")).and_then(|x| x.as_str()) == Some(&format!("bm{i}"))),
 			FeOp::Subscribe | FeOp::SubscribeDrop | FeOp::SubscribeHold | FeOp::LateSubscribe => v.get("method").and_then(|x| x.as_str()) == Some("sub") && v.get("params") == Some(&json!([i])),
 			FeOp::Notif => v.get("method").and_then(|x| x.as_str()) == Some("note") && v.get("params") == Some(&json!([i])),
-			FeOp::Call | FeOp::LateCall | FeOp::AbandonCall => v.get("method").and_then(|x| x.as_str()) == Some("m") && v.get("params") == Some(&json!([i])),
+			FeOp::Call | FeOp::LateCall | FeOp::AbandonCall | FeOp::CallPolledLate => v.get("method").and_then(|x| x.as_str()) == Some("m") && v.get("params") == Some(&json!([i])),
 			FeOp::RegisterNotif | FeOp::NotifBurst(_) => false,
 		}
 	})
